@@ -1217,25 +1217,25 @@ func aggAdd(t *Table, vals []GV) {
 		for i, v := range vals {
 			s[i] = v.(int)
 		}
-		res = e.Fn.(func([]int) int)(s)
+		res = rawFn[t.Sym].(func([]int) int)(s)
 	case "float":
 		s := make([]float64, len(vals))
 		for i, v := range vals {
 			s[i] = v.(float64)
 		}
-		res = e.Fn.(func([]float64) float64)(s)
+		res = rawFn[t.Sym].(func([]float64) float64)(s)
 	case "bool":
 		s := make([]bool, len(vals))
 		for i, v := range vals {
 			s[i] = v.(bool)
 		}
-		res = e.Fn.(func([]bool) bool)(s)
+		res = rawFn[t.Sym].(func([]bool) bool)(s)
 	case "string":
 		s := make([]*string, len(vals))
 		for i, v := range vals {
 			s[i] = v.(*string)
 		}
-		res = e.Fn.(func([]*string) *string)(s)
+		res = rawFn[t.Sym].(func([]*string) *string)(s)
 	}
 	k := gvKey(vals)
 	if t.seen[k] {
